@@ -297,7 +297,7 @@ theorem rmdirTail_cons (pp : Path) (n : Name) (s' : St) (h : RmReady pp n s') :
     have hpm1 : s'.mem pp = some pm := by rw [hm']; exact hpm
     have hcp := copyNodeUp_spec pp s' hc'
     cases hres : copyNodeUp pp s' with
-    | err e s2 => rw [hres] at hcp; rw [bind_err hres]; exact hcp
+    | err e s2 => rw [hres] at hcp; rw [bind_err hres]; exact hcp.1
     | ok u s2 =>
       rw [hres] at hcp
       rw [bind_ok hres]
